@@ -22,7 +22,7 @@ CLAIMED = {
   "note": "Trusts log.Logger's own mutex and sync/atomic.",
  },
  "C19": {
-  "technique": "dominator ordering of header/body writes, guard facts on content-type selection, constant/table extraction of the envelope, value-flow of codes over SSA",
+  "technique": "dominator ordering of header/body writes, guard facts on content-type selection, constant/table extraction of the envelope, value-flow of codes over SSA; who-may-store rule on the handler closures (no store through a captured or package variable at any nesting depth)",
   "text": "Sound static decision of the handler-shape clauses of C19: headers before body on every path, envelope keys/constants, per-kind error routing with the error's own code, marshal failure -> error response, client success only under code==0.",
   "note": "Trusts encoding/json and net/http; arbitrary value trees are not enumerated.",
  },
@@ -89,7 +89,7 @@ CLAIMED = {
  },
 
  "C13": {
-  "technique": "bit-provenance abstract interpretation of both frame writers over symbolic payload lengths (role x length form x FIN x RSV1 x opcode variants; masking and the transport stubbed by contracts), store/guard rules for fragment sequencing, constant and call-sequence rules for the handshake; dataflow rules on the masking side (key-position accounting inside maskBytes, position 0 for every frame written, per-frame flag must-pass, may-armed deadline analysis in Dial)",
+  "technique": "bit-provenance abstract interpretation of both frame writers over symbolic payload lengths (role x length form x FIN x RSV1 x opcode variants; masking and the transport stubbed by contracts), store/guard rules for fragment sequencing, constant and call-sequence rules for the handshake; dataflow rules on the masking side (key-position accounting inside maskBytes, position 0 for every frame written, per-frame flag must-pass, may-armed deadline analysis in Dial); must-equal dataflow in NextWriter (the writer returned is the writer registered in c.writer)",
   "text": "For all payload lengths at once and every role/length-form/FIN/compression/opcode combination: the bytes handed to the transport are exactly the RFC 6455 frame header (correct length form and length value, mask bit and key iff client) followed by the payload; invalid control frames never reach the transport; fragment sequencing state is reset as required; accept key and handshake tests present. Payload integrity through the buffering/compression layers is not decided.",
   "note": "maskBytes (unsafe word-wise XOR) and net.Conn are contracts; layout transcribed from RFC 6455 5.2.",
  },
